@@ -287,7 +287,7 @@ def transformer_cases():
                         (key + "/same-text", S(model.text(y)) == S(model.text(x))),
                         (key + "/input-untouched",
                          all(x.__dict__.get(k) is v for k, v in before.items()) and len(getattr(x, "__dict__", {})) == len(before)
-                         and not [e for e in cx.log[mark:] if e[0] == "write" and e[1] in kids]),
+                         and not [e for e in cx.log[mark:] if e[0] == "write" and any(e[1] is k_ for k_ in kids)]),
                         (key + "/context-not-mutated", ctx0 == snap)]
                 if kind == "tracking":
                     def is1(t, o):
